@@ -118,6 +118,21 @@ CHECKS = {
                      "through AutoDecoder on the pristine code.",
                 note="Trusted: z3, symx proxies and construct/regex/float/datetime models (per-path replay of every decoder's outcome on the pristine code). Termination by wall-clock guard (12 s symbolic, 5 s concrete).",
                 technique="bounded symbolic execution of the real decoders on free octet windows of genuine messages; escaping exception or non-termination on a feasible path = violation"),
+    "C11": dict(level="model_checking", design="§4 C11",
+                text="Data blocks generated from the IEC 62056-21 syntax - kW/kWh/kvar/kvarh value with every digit free (integer part 1..6, fraction 0..3 digits, leading zeros), unit letters free in case, "
+                     "V/A/var/varh value, free text, 12 free clock digits (valid date-time), CRLF/LF/blank lines, multi-value data sets, two data sets per line - run through the real parser and decoder "
+                     "(regular expressions interpreted symbolically, float()/int() in the relative-error model): per path the solver proves structure, names, exact-1 <= W <= exact, V = rn(value), clock "
+                     "fields, verbatim text, and that decode_p1_readout / decode_p1_readout_content / AutoDecoder agree (plus manufacturer and type id from a free identification line).",
+                note="Trusted: z3, symx proxies incl. regex/int/float/datetime models (every path replayed on the pristine code; float sat answers replayed with real floats), reference parser in spec/concrete.py. "
+                     "OBIS addresses are concrete members of the documented table plus unknown ones.",
+                technique="bounded symbolic execution of the real parser/decoder on syntax-generated blocks with symbolic digits; float kernel int(float(v)*1000) in the relative-error model (QF_LIRA+UF)"),
+    "C13": dict(level="model_checking", design="§4 C13",
+                text="Lemma with stub readers: 2 (quick) / 3 (thorough) candidate readers whose read() returns 0..2 messages per call, each with free is_valid and free payload kind (None/empty/non-empty), "
+                     "2/3 data_received calls, both protocol classes, real asyncio.Queue; every path is compared with a reference selection function over the same Booleans - this covers every stream and "
+                     "chunking up to the message counts because the protocol sees readers only through read()/is_valid/payload. Corollary: the real HDLC and P1 readers on spec-built clean streams "
+                     "(header-only frame, free payload octet / free digit), candidate lists [HDLC], [P1], [HDLC,P1], [P1,HDLC], stuffing variant, several splittings.",
+                note="Trusted: z3, symx proxies (every path replayed on the pristine protocol classes with concrete stub readers / real readers).",
+                technique="symbolic execution of the real data_received/message_received with stub readers whose outputs are free z3 Booleans/ints, compared with a reference per path"),
 }
 
 NOT_YET = {}
